@@ -40,7 +40,7 @@ UNPROVED = ["linearity / per-component action / translation invariance are prove
             "mean(d) and mean(list) they follow from mean_dir_eq / mean_dirs_eq + integrate_linear and are not stated as separate theorems",
             "the success theorems (…_ok, fubini_total) assume a mesh without subregions; with subregions the theorems are conditional on "
             "the result being returned (the subregion setter's alignment test is modelled, its success is not proved)"]
-BUDGET = {"quick": 90, "thorough": 900}
+BUDGET = {"quick": 120, "thorough": 1200}
 
 NAMES = ["x", "y", "z", "a", "b", "c", "u", "v", "w", "t"]
 UNITS = ["m", "nm", "s", "K", "T", "A"]
